@@ -180,6 +180,9 @@ func pureCallee(fn *ssa.Function) bool {
 	if f.Pkg == nil {
 		return false
 	}
+	if (f.Name() == "String" || f.Name() == "Error") && f.Signature.Recv() != nil && f.Signature.Params().Len() == 0 {
+		return true // renderings do not write to their receiver
+	}
 	return purePkgs[f.Pkg.Pkg.Path()]
 }
 
@@ -977,7 +980,7 @@ func (fr *Frame) applyContractSig(fc *FuncContract, callee *ssa.Function, sig *t
 		}
 	}
 	for _, d := range fc.Defines {
-		c.Trust("ghost definition (assumed at call sites, about the fresh result) of " + fc.Key + ": " + d.Text)
+		c.Trust("ghost definition / environment assumption (assumed at call sites, not checked in the body) of " + fc.Key + ": " + d.Text)
 	}
 	return res
 }
